@@ -2,12 +2,28 @@
 from ..api import Inst, Violation, HarnessError, meta
 from ..ref import C20_dates as R
 
-from bacpypes.basetypes import CalendarEntry, DateRange
+from ..ref import C20_sched as T
+from ..ref import C20_clock as C
+from ..world import World
+
+import time as _real_time
+import bacpypes.primitivedata as PD
+
+from bacpypes.primitivedata import Integer, Null
+from bacpypes.constructeddata import ArrayOf, ListOf
+from bacpypes.basetypes import (CalendarEntry, DailySchedule, DateRange, SpecialEvent,
+                                SpecialEventPeriod, TimeValue)
+from bacpypes.object import CalendarObject
+from bacpypes.app import Application
+from bacpypes.local.device import LocalDeviceObject
 from bacpypes.local import schedule as S
 
 _bad = R.selftest()
 if _bad:
     raise HarnessError("C20 reference calendar disagrees with datetime: %r" % (_bad,))
+_bad = C.conformance()
+if _bad:
+    raise HarnessError("C20 UTC clock model disagrees with time.localtime/mktime: %r" % (_bad,))
 
 
 # ====================================================================== date matchers
@@ -131,6 +147,369 @@ def calendar_entry(d, choice):
     d.reach()
 
 
+# ====================================================================== eval vs. clause 12.24
+# concrete representative days: leap day (Thursday), a Sunday that ends a year, a Monday that
+# starts one -- day of week 4, 7 (last weekly element) and 1 (first weekly element)
+DAYS = {'leapday': (124, 2, 29, 4), 'sunday': (123, 12, 31, 7), 'monday': (101, 1, 1, 1)}
+WIDE = ((0, 1, 1, 1), (254, 12, 31, 2))      # the effective period of the repository's own tests
+V_DEFAULT = 7
+V_INITIAL = 0
+
+
+def sym_code(d, name, lo, hi):
+    """symbolic octet over {lo..hi, 255} without a branch"""
+    x = d.int(lo, hi + 1, name)
+    return x + (x // (hi + 1)) * (255 - (hi + 1))
+
+
+def draw_time(d, p, res='hm'):
+    """res 'hm': hour and minute symbolic; 'h': hour symbolic, on the hour"""
+    if res == 'h':
+        return (d.int(0, 23, p + 'h'), 0, 0, 0)
+    return (d.int(0, 23, p + 'h'), d.int(0, 59, p + 'm'), 0, 0)
+
+
+def draw_tvs(d, n, base, p, res='hm'):
+    """n time-values in strictly increasing time order, values base+1.. (all distinct) or NULL"""
+    out = []
+    prev = None
+    for k in range(n):
+        t = draw_time(d, '%s%d_' % (p, k), res)
+        if prev is not None:
+            d.assume(T.tkey(prev) < T.tkey(t))
+        v = base + k + 1
+        if d.bool('%s%d_null' % (p, k)):
+            v = None
+        out.append((t, v))
+        prev = t
+    return out
+
+
+def near_days(day, last):
+    return max(1, day - 1), min(last, day + 1)
+
+
+def draw_entry(d, kind, date, p):
+    """a calendar entry with symbolic content that may or may not contain `date` (the full
+    pattern space is the subject of the match_* harnesses)"""
+    y, m, day, dow = date
+    if kind == 'date':
+        return ('date', (255, 255, 255, sym_code(d, p + 'dow_p', 1, 7)))
+    if kind == 'dow':
+        # a specific day of week: that of the day or a neighbouring one
+        lo = dow if dow < 7 else dow - 1
+        return ('date', (255, 255, 255, d.int(lo, lo + 1, p + 'dow_p')))
+    if kind == 'range':
+        lo, hi = near_days(day, R.month_len(y + 1900, m))
+        return ('range', (y, m, d.int(lo, hi, p + 'from_day'), 255), (y, m, d.int(lo, hi, p + 'to_day'), 255))
+    if kind == 'wnd':
+        return ('wnd', (255, 255, sym_code(d, p + 'dow_p', 1, 7)))
+    raise AssertionError(kind)
+
+
+CAL_KINDS = ('date', 'wnd')
+
+
+def draw_period(d, kind, date, p):
+    if kind == 'calendar':
+        n = d.index(3, p + 'cal_n')
+        return ('calendar', [draw_entry(d, CAL_KINDS[k], date, '%scal%d_' % (p, k)) for k in range(n)])
+    return ('entry', draw_entry(d, kind, date, p))
+
+
+def draw_eff(d, eff, date):
+    y, m, day, dow = date
+    lo, hi = near_days(day, R.month_len(y + 1900, m))
+    if eff == 'wide':
+        return WIDE
+    start = (y, m, d.int(lo, hi, 'eff_from_day'), 255)
+    end = (y, m, d.int(lo, hi, 'eff_to_day'), 255)
+    if eff == 'days':
+        return (start, end)
+    if eff == 'open-start':
+        return (R.UNSPECIFIED, end)
+    if eff == 'open-end':
+        return (start, R.UNSPECIFIED)
+    if eff == 'open-both':
+        return (R.UNSPECIFIED, R.UNSPECIFIED)
+    raise AssertionError(eff)
+
+
+def draw_priorities(d, mode, n):
+    if mode == 'sym':
+        return [d.int(1, 16, 'prio%d' % i) for i in range(n)]
+    if mode == 'near':
+        # first one anywhere in 1..16, each further one within one step of its predecessor
+        out = [d.int(1, 16, 'prio0')]
+        for i in range(1, n):
+            p = out[-1] + d.int(-1, 1, 'prio%d_step' % i)
+            d.assume(1 <= p <= 16)
+            out.append(p)
+        return out
+    if isinstance(mode, (list, tuple)):
+        if n == 0:
+            return []
+        return list(d.pick([tuple(x) for x in mode], 'prios'))
+    raise AssertionError(mode)
+
+
+def draw_config(d, date, exc, nweek, eff, prio, res):
+    prios = draw_priorities(d, prio, len(exc))
+    cfg = dict(eff=draw_eff(d, eff, date), exceptions=[], weekly=None, default=V_DEFAULT)
+    for i, (kind, ntv) in enumerate(exc):
+        p = 'x%d_' % i
+        cfg['exceptions'].append(dict(period=draw_period(d, kind, date, p), priority=prios[i],
+                                      tvs=draw_tvs(d, ntv, 100 * (i + 1), p + 'tv', res)))
+    if nweek is not None:
+        cfg['weekly'] = {}
+        for w in range(1, 8):
+            if w == date[3]:
+                cfg['weekly'][w] = draw_tvs(d, nweek, 10, 'wk_tv', res)
+            else:
+                # the other weekdays carry a marker: picking the wrong element shows
+                cfg['weekly'][w] = [((0, 0, 0, 0), 50 + w)]
+    return cfg
+
+
+def real_tvs(tvs):
+    return [TimeValue(time=t, value=Null() if v is None else Integer(v)) for t, v in tvs]
+
+
+def real_entry(entry):
+    if entry[0] == 'date':
+        return CalendarEntry(date=entry[1])
+    if entry[0] == 'range':
+        return CalendarEntry(dateRange=DateRange(startDate=entry[1], endDate=entry[2]))
+    return CalendarEntry(weekNDay=bytes(entry[1]))
+
+
+def build_schedule(cfg):
+    """the configuration as real bacpypes objects; -> (schedule object, application or None)"""
+    app = None
+    specials = []
+    ncal = 0
+    for e in cfg['exceptions']:
+        if e['period'][0] == 'calendar':
+            if app is None:
+                app = Application(LocalDeviceObject(objectName='device', objectIdentifier=('device', 1),
+                                                    vendorIdentifier=999))
+            ncal += 1
+            app.add_object(CalendarObject(objectIdentifier=('calendar', ncal), objectName='calendar %d' % ncal,
+                                          presentValue=False,
+                                          dateList=ListOf(CalendarEntry)([real_entry(x) for x in e['period'][1]])))
+            period = SpecialEventPeriod(calendarReference=('calendar', ncal))
+        else:
+            period = SpecialEventPeriod(calendarEntry=real_entry(e['period'][1]))
+        specials.append(SpecialEvent(period=period, listOfTimeValues=real_tvs(e['tvs']),
+                                     eventPriority=e['priority']))
+    kw = {}
+    if cfg['weekly'] is not None:
+        kw['weeklySchedule'] = ArrayOf(DailySchedule)(
+            [DailySchedule(daySchedule=real_tvs(cfg['weekly'][w])) for w in range(1, 8)])
+    so = S.LocalScheduleObject(objectIdentifier=('schedule', 1), objectName='schedule 1',
+                               presentValue=Integer(V_INITIAL),
+                               effectivePeriod=DateRange(startDate=cfg['eff'][0], endDate=cfg['eff'][1]),
+                               exceptionSchedule=ArrayOf(SpecialEvent)(specials),
+                               scheduleDefault=Integer(cfg['default']), **kw)
+    if app is not None:
+        app.add_object(so)
+    return so, app
+
+
+def plain(x):
+    """Atomic -> its value, Date/Time -> tuple (whatever public shape the result has)"""
+    return getattr(x, 'value', x)
+
+
+def open_ended(cfg):
+    return R.is_unspecified(cfg['eff'][0]) or R.is_unspecified(cfg['eff'][1])
+
+
+EVAL_BOUNDS = ("one schedule per path inside the instance's shape: exc = exception entries as (period kind, number "
+               "of time-values); period content symbolic around the evaluated day (date pattern / weekNDay: day-of-week "
+               "octet over {1..7, FF}; date range: both limits within one day of it; calendar reference: calendar object "
+               "with 0..2 such entries); event priority symbolic per `prio` (sym: each 1..16; near: first 1..16, next "
+               "within one step; list: picked from it); every time-value: hour 0..23 and minute 0..59 symbolic, strictly "
+               "increasing inside a list, value distinct or NULL (symbolic); weekly list of the day: nweek entries alike "
+               "(other weekdays carry a marker entry); effective period per `eff` (wide: 1900-01-01..2154-12-31 as in the "
+               "repository's tests; days: both limits symbolic within one day of the evaluated day; open-*: limit(s) "
+               "unspecified); evaluated on the concrete day(s) `days` at a symbolic hh:mm, second instant hh:mm symbolic "
+               "in [now, reported next transition)")
+EVAL_OUTSIDE = ("more exceptions / time-values than the shape; seconds and hundredths other than 0; lists not in "
+                "increasing time order or with equal times; the value the schedule shows when two exceptions in force on "
+                "the day share one priority (not decided by the statement: only no-staleness and progress are checked "
+                "there); what eval returns outside the effective period (nothing prescribed)")
+
+
+@meta(bounds=EVAL_BOUNDS, outside=EVAL_OUTSIDE,
+      stubs=["World: fresh TaskManager / deferred queue per path (the interpreter registers itself on creation; "
+             "the loop is not run here)"],
+      assumes=["time-value lists are in strictly increasing time order"])
+def eval_ref(d, days, exc, nweek, eff='wide', prio='sym', res='hm', stale='instant'):
+    World(0)
+    date = DAYS[d.pick(days, 'day')]
+    cfg = draw_config(d, date, exc, nweek, eff, prio, res)
+    now = draw_time(d, 'now_', res)
+    so, app = build_schedule(cfg)
+    d.note(date=date, now=now)
+
+    res = so._task.eval(date, now)
+    status, want, src = T.evaluate(cfg, date, now)
+    if status == T.INACTIVE:
+        # outside the effective period nothing is prescribed (eval documents None)
+        d.reach()
+        return
+    if res is None:
+        d.flag(True, "date-range-open-ended" if open_ended(cfg) else "eval-inactive-inside-period",
+               where="effectivePeriod", date=date, eff=cfg['eff'])
+        d.reach()
+        return
+    got, nxt = plain(res[0]), plain(res[1])
+    if status == T.OK:
+        d.flag(got != want, "eval-value", date=date, now=now, got=got, want=want, source=src)
+    # the timer armed at the reported transition must lie ahead, within the day
+    ahead = T.tkey(now) < T.tkey(nxt) <= T.tkey(T.END_OF_DAY)
+    d.flag(not ahead, "eval-next-transition-not-ahead", date=date, now=now, next=nxt)
+    if ahead and stale == 'instant':
+        # no staleness: any instant before the reported transition evaluates to the same value
+        t2 = draw_time(d, 'then_', res)
+        d.assume(T.tkey(now) <= T.tkey(t2))
+        d.assume(T.tkey(t2) < T.tkey(nxt))
+        res2 = so._task.eval(date, t2)
+        got2 = None if res2 is None else plain(res2[0])
+        d.flag(got2 != got, "stale-window", tie=(status == T.TIE), date=date, now=now, value=got,
+               next=nxt, then=t2, value_then=got2)
+    elif ahead:
+        # the same at the only instants where the value can change: the entry times of the lists
+        # that matter that day (the value is a step function of the time of day; that the real
+        # one has no other steps follows from eval-value holding at every `now`)
+        for t2 in T.all_times(cfg, date):
+            if T.tkey(now) < T.tkey(t2) and T.tkey(t2) < T.tkey(nxt):
+                res2 = so._task.eval(date, t2)
+                got2 = None if res2 is None else plain(res2[0])
+                d.flag(got2 != got, "stale-window", tie=(status == T.TIE), date=date, now=now, value=got,
+                       next=nxt, then=t2, value_then=got2)
+    d.reach()
+
+
+# ====================================================================== the schedule on its own timer
+class _TimeShim:
+    """stands in for the `time` module inside bacpypes.primitivedata while a path runs
+    symbolically (Date.now / Time.now call time.localtime, a C function)"""
+    candidates = None
+
+    def localtime(self, secs=None):
+        return C.localtime_utc(secs, self.candidates)
+
+    def mktime(self, tup):
+        return C.mktime_utc(tup)
+
+    def __getattr__(self, name):
+        return getattr(_real_time, name)
+
+
+_SHIM = _TimeShim()
+
+
+def install_clock(d, candidates):
+    """symbolic run: integer UTC model of localtime/mktime; plain replay: the C functions"""
+    if d.symbolic:
+        _SHIM.candidates = candidates
+        PD.time = _SHIM
+        S._mktime = C.mktime_utc
+    else:
+        PD.time = _real_time
+        S._mktime = _real_time.mktime
+
+
+# first day of the window: leap -> Wed 2024-02-28, Thu 02-29, Fri 03-01, ... (month end in a leap
+# year); newyear -> Sat 2023-12-30, Sun 12-31, Mon 2024-01-01, ... (year end, weekly index 7 -> 1)
+BASES = {'leap': (124, 2, 28, 3), 'newyear': (123, 12, 30, 6)}
+FAR_PAST = (0, 1, 1, 1)
+FAR_FUTURE = (254, 12, 31, 2)
+
+RUN_BOUNDS = ("window of days starting at `base` (leap: 2024-02-28, newyear: 2023-12-30); start instant symbolic "
+              "(in units of `res`: h = hours, hm = minutes, s = seconds) anywhere in window days start_days[0]..start_days[1]; "
+              "probe instant symbolic 0..span days after the start; effective period per `edge` relative to the window "
+              "(none: 1900..2154; enter: begins on window day 1; exit: ends with window day 1; both: exactly window days 1..2); "
+              "weekly schedule: one entry per weekday at a symbolic time of day (own time and value per weekday); one exception "
+              "(priority 8) on window day 1: a value from a symbolic time until relinquished at a later symbolic time")
+RUN_OUTSIDE = ("longer runs; more entries; reconfiguration while running; DST / time zones other than UTC; what the "
+               "present value is while the clock is outside the effective period (nothing prescribed)")
+
+
+@meta(bounds=RUN_BOUNDS, outside=RUN_OUTSIDE,
+      stubs=["World: real core.run / TaskManager on a virtual clock (task._time, asyncore.loop, trigger pipe), fresh "
+             "singletons per path",
+             "time.localtime / time.mktime as seen by bacpypes.primitivedata and bacpypes.local.schedule -> integer "
+             "UTC model vf/ref/C20_clock.py while symbolic (checked against the C functions on import; plain replay "
+             "runs the C functions); TZ=UTC"],
+      assumes=["the clock reads integer seconds", "processing takes no time"])
+def sched_run(d, base, edge, res, start_days, span):
+    B = BASES[base]
+    b0 = R.days_from_civil(B[0] + 1900, B[1], B[2])
+    ndays = start_days[1] + span + 3
+    dates = [R.date_add(B, k) for k in range(ndays)]
+    candidates = [b0 + k for k in range(ndays)]
+    unit = {'h': 3600, 'hm': 60, 's': 1}[res]
+    per_day = C.DAY // unit
+    t0 = b0 * C.DAY + unit * d.int(start_days[0] * per_day, (start_days[1] + 1) * per_day - 1, 'start')
+    probe = t0 + unit * d.int(0, span * per_day, 'probe_after')
+    tres = 'h' if res == 'h' else 'hm'
+
+    # ---- configuration
+    if edge == 'none':
+        eff = (FAR_PAST, FAR_FUTURE)
+    elif edge == 'enter':
+        eff = (dates[1][:3] + (255,), FAR_FUTURE)
+    elif edge == 'exit':
+        eff = (FAR_PAST, dates[1][:3] + (255,))
+    elif edge == 'both':
+        eff = (dates[1][:3] + (255,), dates[2][:3] + (255,))
+    else:
+        raise AssertionError(edge)
+    weekly = {}
+    visited = [dt[3] for dt in dates[:ndays - 2]]
+    for w in range(1, 8):
+        if w in visited:
+            weekly[w] = [(draw_time(d, 'wk%d_' % w, tres), 10 + w)]
+        else:
+            weekly[w] = [((0, 0, 0, 0), 50 + w)]
+    x_on = draw_time(d, 'x_on_', tres)
+    x_off = draw_time(d, 'x_off_', tres)
+    d.assume(T.tkey(x_on) < T.tkey(x_off))
+    cfg = dict(eff=eff, weekly=weekly, default=V_DEFAULT,
+               exceptions=[dict(period=('entry', ('date', dates[1][:3] + (255,))), priority=8,
+                                tvs=[(x_on, 101), (x_off, None)])])
+
+    # ---- run the real object on its own timer
+    install_clock(d, candidates)
+    w = World(t0)
+    so, app = build_schedule(cfg)
+    w.run(until=probe)
+
+    # ---- oracle
+    day0, _ = C.split_days(t0, candidates)
+    dayp, sod = C.split_days(probe, candidates)
+    date0, datep = dates[day0 - b0], dates[dayp - b0]
+    nowp = (sod // 3600, (sod % 3600) // 60, sod % 60, 0)
+    d.note(start=t0, probe=probe, date_start=date0, date_probe=datep, time_probe=nowp)
+    started_inside = T.active(cfg, date0)
+    status, want, src = T.evaluate(cfg, datep, nowp)
+    got = plain(so.presentValue)
+    if status == T.OK and got != want:
+        d.flag(True, "present-value" if started_inside else "schedule-stops-at-period-edge",
+               edge=edge, started_inside=started_inside, date_start=date0, date_probe=datep, time_probe=nowp,
+               got=got, want=want, source=src)
+    # keeps running: nothing raised inside the event loop (it swallows and logs exceptions)
+    all_inside = started_inside and status != T.INACTIVE
+    for logger, exc in d.errors_logged():
+        d.flag(True, "eval-none-outside-period" if (exc == 'TypeError' and not all_inside) else "interpreter-error-logged",
+               edge=edge, logger=logger, exc=exc, started_inside=started_inside,
+               probe_inside=(status != T.INACTIVE))
+    d.reach()
+
+
 def instances(tier):
     q = tier == "quick"
     out = []
@@ -139,4 +518,9 @@ def instances(tier):
     out.append(Inst(match_date_range, {}, budget=120 if q else 300))
     for c in ('date', 'dateRange', 'weekNDay'):
         out.append(Inst(calendar_entry, dict(choice=c), budget=120 if q else 300))
+    A = ['leapday', 'sunday', 'monday']
+    L = ['leapday']
+    B = 200
+    for edge in ('none', 'enter', 'exit'):
+        out.append(Inst(sched_run, dict(base='leap', edge=edge, res='h', start_days=(0, 2), span=2), budget=B))
     return out
